@@ -53,7 +53,7 @@ def gen_cases(tier, seed):
     for i in range(n):
         s = env.seed_for(seed, ID, tier, i)
         r = random.Random(env.seed_for(s, "descriptor"))  # independent of the stream run_case derives from the same seed
-        out.append({"seed": s, "observer": r.choice(["console", "html", "html_path", "ipython"]), "mode": r.choice(["direct", "threaded"]), "exit_with": r.choice(["none", "none", "error", "kbi", "sysexit"]),
+        out.append({"seed": s, "observer": r.choice(["console", "html", "html_path", "ipython"]), "mode": r.choice(["direct", "threaded"]), "exit_with": r.choice(["none", "none", "error", "kbi", "sysexit"]), "dry_tail": r.random() < 0.15,
                     "nscopes": r.choice([1, 2, 3, 5, 8]), "nthreads": r.choice([1, 1, 2, 4]), "style": r.choice(["same_unorderable", "mixed", "strings", "any"]),
                     "exceptions": r.choice([0, 0, 1, 3, 150, 200]) if r.random() < 0.5 else 0})
     return out
@@ -150,6 +150,13 @@ def gen_sequence(r, scopes, desc):
                 continue
         # extra failures to exceed the 128-exception cap when requested
         seq.extend(events)
+    if desc.get("dry_tail"):
+        # the account ends with TOTALS (what a dry run announces for the run section after the stale check, or a transform_physical that
+        # adds calls late): some time after the last call notification, more is announced and nothing else follows
+        for sc in r.sample(scopes, min(len(scopes), r.randint(1, 2))):
+            amt = r.randint(1, 5)
+            seq.append((0, "total", "run", sc, amt, r.choice([0.0, 0.5, 2.0])))
+            final.setdefault(("run", sc), {"completed": 0, "failed": 0, "running": 0, "total": 0})["total"] += amt
     # compute expectations by replay
     running = collections.Counter()
     for th, op, section, sc, arg, dtm in seq:
@@ -273,6 +280,16 @@ def run_case(desc):
             busy_so_far = 0.0
             running_now = 0
             skip_first = [0, 0, 0, 10 ** 9, len(seq) // 2][desc["seed"] % 5]
+            if desc["seed"] % 3 == 0:
+                # the display's first refresh can come before anything has been announced (slow planning): it renders an empty state
+                try:
+                    obs._stale = True
+                    with obs._lock:
+                        v = obs._do_render()
+                    if v is not None:
+                        obs._output(v)
+                except BaseException as e:
+                    render_error = f"rendering the EMPTY state (before any notification) raised {type(e).__name__}: {e}"
             for k, (th, op, section, sc, arg, dtm) in enumerate(seq):
                 if running_now > 0:
                     busy_so_far += dtm
@@ -323,6 +340,16 @@ def run_case(desc):
                         obs._output(v)
                 except BaseException as e:
                     render_error = f"final rendering raised {type(e).__name__}: {e}"
+                if render_error is None and desc["seed"] % 2 == 0:
+                    # ... and one more refresh after everything has been shown as finished (nothing new to print)
+                    try:
+                        obs._stale = True
+                        with obs._lock:
+                            v = obs._do_render()
+                        if v is not None:
+                            obs._output(v)
+                    except BaseException as e:
+                        render_error = f"a refresh after the final rendering raised {type(e).__name__}: {e}"
         else:
             T = desc["nthreads"]
 
